@@ -41,6 +41,8 @@ ClsStruct == {"Structure"}
 ClsBoth == {"Molecule", "Structure"}
 DevNone == {}
 DevNoQ == {"MissingChargeIsZero"}
+DevSlot == {"SlotById"}
+DevWrap == {"EndpointWraps"}
 DevAsFound == {"StaleLists", "NoCountCheck"}
 DevStale == {"StaleLists"}
 DevRepeat == {"RepeatedBlockAccepted"}
